@@ -41,14 +41,9 @@ pub fn c27_ipv4_all_addresses() {
     kani::cover!(got && a == 203, "blocked documentation witness");
 }
 
-#[kani::proof]
-pub fn c27_ipv6_all_addresses() {
-    let s: [u16; 8] = kani::any();
-    let ip = Ipv6Addr::new(s[0], s[1], s[2], s[3], s[4], s[5], s[6], s[7]);
-    let got = h::ipv6_is_non_global(ip);
-
+fn ref_v6_non_global(s: &[u16; 8]) -> bool {
     let mapped = s[0] == 0 && s[1] == 0 && s[2] == 0 && s[3] == 0 && s[4] == 0 && s[5] == 0xffff;
-    let must_block = if mapped {
+    if mapped {
         ref_v4_non_global((s[6] >> 8) as u8, s[6] as u8, (s[7] >> 8) as u8, s[7] as u8)
     } else {
         let all_zero_hi = s[0] == 0 && s[1] == 0 && s[2] == 0 && s[3] == 0 && s[4] == 0 && s[5] == 0 && s[6] == 0;
@@ -57,7 +52,16 @@ pub fn c27_ipv6_all_addresses() {
             || (s[0] >> 8) == 0xff          // multicast ff00::/8
             || (s[0] >> 9) == (0xfc00 >> 9) // unique local fc00::/7
             || (s[0] >> 6) == (0xfe80 >> 6) // link local fe80::/10
-    };
+    }
+}
+
+#[kani::proof]
+pub fn c27_ipv6_all_addresses() {
+    let s: [u16; 8] = kani::any();
+    let ip = Ipv6Addr::new(s[0], s[1], s[2], s[3], s[4], s[5], s[6], s[7]);
+    let got = h::ipv6_is_non_global(ip);
+    let mapped = s[0] == 0 && s[1] == 0 && s[2] == 0 && s[3] == 0 && s[4] == 0 && s[5] == 0xffff;
+    let must_block = ref_v6_non_global(&s);
     if must_block {
         assert!(got, "internal IPv6 address accepted as redirect target");
     }
@@ -67,15 +71,19 @@ pub fn c27_ipv6_all_addresses() {
     kani::cover!(!mapped && !got, "global v6 witness");
 }
 
+/// The family dispatcher used by host_is_non_global blocks the table for both families.
 #[kani::proof]
 pub fn c27_ip_dispatch() {
-    // ip_is_non_global dispatches each family to its own classifier.
     let (a, b, c, d): (u8, u8, u8, u8) = kani::any();
-    let v4 = Ipv4Addr::new(a, b, c, d);
-    assert_eq!(h::ip_is_non_global(IpAddr::V4(v4)), h::ipv4_is_non_global(v4));
+    let got4 = h::ip_is_non_global(IpAddr::V4(Ipv4Addr::new(a, b, c, d)));
+    if ref_v4_non_global(a, b, c, d) {
+        assert!(got4, "internal IPv4 address accepted by the IpAddr dispatcher");
+    }
     let s: [u16; 8] = kani::any();
-    let v6 = Ipv6Addr::new(s[0], s[1], s[2], s[3], s[4], s[5], s[6], s[7]);
-    assert_eq!(h::ip_is_non_global(IpAddr::V6(v6)), h::ipv6_is_non_global(v6));
-    kani::cover!(h::ip_is_non_global(IpAddr::V4(v4)), "v4 blocked");
-    kani::cover!(!h::ip_is_non_global(IpAddr::V6(v6)), "v6 global");
+    let got6 = h::ip_is_non_global(IpAddr::V6(Ipv6Addr::new(s[0], s[1], s[2], s[3], s[4], s[5], s[6], s[7])));
+    if ref_v6_non_global(&s) {
+        assert!(got6, "internal IPv6 address accepted by the IpAddr dispatcher");
+    }
+    kani::cover!(got4, "v4 blocked");
+    kani::cover!(!got6, "v6 global");
 }
